@@ -433,8 +433,19 @@ def oracle_raw(R):
         closure = s.inherit_order(e["name"])
         for it in (raw.split(" : ")[1].split() if " : " in raw and not raw.endswith(" :") else []):
             m = re.match(r"([^.]+)\.(.+)/([EDR])([dr]*)$", it)
+            if m and "r" in m.group(4) and m.group(3) == "E":
+                # wired to a redefining attribute only when an explicit redeclaration SELF\sup.x means THIS attribute
+                meant = any(a["kind"] == "E" and a["redecl"] and a["name"].lower() == m.group(2)
+                            and m.group(1) in [d.lower() for d in s.declarers(a["redecl"], a["name"])]
+                            for mm in closure for a in s.Ent(mm)["attrs"])
+                if not meant:
+                    probs.append(("flags:redefined-wired-to-wrong-supertype",
+                                  f"fresh instance of {n}: attribute {m.group(1)}.{m.group(2)} is wired to a redefining attribute although no "
+                                  f"explicit redeclaration in {closure} redeclares the {m.group(2)} of {m.group(1)}", ("entity", e["name"])))
+                    break
             if m and "d" in m.group(4) and m.group(3) == "E":
                 derived_somewhere = any(a["kind"] == "D" and a["redecl"] and a["name"].lower() == m.group(2)
+                                        and m.group(1) in [d.lower() for d in s.declarers(a["redecl"], a["name"])]
                                         for mm in closure for a in s.Ent(mm)["attrs"])
                 if not derived_somewhere:
                     probs.append(("flags:explicit-redeclaration-marked-derived",
